@@ -2,7 +2,7 @@ package raft
 
 // Leader commit rule (C02.M1, C06 leader flush, C11 non-voter acks, C17.P3 commit enabledness).
 
-//verif:check C02,C06,C11 stubs=env,valuefile,abslog reach=committed,notcommitted,end desc="leader.checkReplUpdates(matchIndex): commit index only forward; a new commit index is >= startIndex, <= lastLogIndex, held by a majority of the voters of the latest configuration (non-voters never count, self only if voter), and flushed locally first" bounds="n<=3 nodes with symbolic voter flags, log of 2 entries, all 64-bit values"
+//verif:check C02,C06,C11,C07 stubs=env,valuefile,abslog reach=committed,notcommitted,end desc="leader.checkReplUpdates(matchIndex): commit index only forward; a new commit index is >= startIndex, <= lastLogIndex, held by a majority of the voters of the latest configuration (non-voters never count, self only if voter), and flushed locally first" bounds="n<=3 nodes with symbolic voter flags, log of 2 entries, all 64-bit values"
 func VH_C02_leader_commit() {
 	n := 1 + vChoice(3)
 	r, l, a := vMkLeader(n, 2, true)
@@ -68,7 +68,7 @@ func VH_C17_commit_enabled() {
 	vReach("end")
 }
 
-//verif:check C06,C11 stubs=env,valuefile,abslog reach=committed,notcommitted,end desc="D3: appending a configuration that changes the voter count (promotion, demotion, incl. the leader itself; 1->2, 2->1, 2->3 voters): whatever the leader commits in that same step is held by a majority of the voters of the configuration now in force" bounds="n=2..3 nodes, symbolic voter flags, one voter flag flipped, log of 2 entries"
+//verif:check C06,C11,C07 stubs=env,valuefile,abslog reach=committed,notcommitted,end desc="D3: appending a configuration that changes the voter count (promotion, demotion, incl. the leader itself; 1->2, 2->1, 2->3 voters): whatever the leader commits in that same step is held by a majority of the voters of the configuration now in force" bounds="n=2..3 nodes, symbolic voter flags, one voter flag flipped, log of 2 entries"
 func VH_C06_config_commit() {
 	n := 2 + vChoice(2)
 	r, l, a := vMkLeader(n, 2, true)
